@@ -126,6 +126,19 @@ def dumpPd (s : St) : String :=
 def splitArgs (args : List String) : List String × List String :=
   (args.takeWhile (· ≠ "?"), (args.dropWhile (· ≠ "?")).drop 1)
 
+/-- a topological index computed from the import statements (`n` rounds of `rank m = 1 + max rank of the targets`);
+on an acyclic project it satisfies `importsOk` -/
+def autoRank (proj : Project) : List Nat :=
+  let tg (m : Nat) : List Nat :=
+    let rec go : List Name → List Stmt → List Nat
+      | _, [] => []
+      | cp, .classDef n _ body :: rest => go (cp ++ [n]) body ++ go cp rest
+      | cp, st :: rest => (stmtTargets proj m st).filterMap id ++ go cp rest
+    go [] (bodyOf proj m)
+  let step (r : List Nat) : List Nat :=
+    (List.range proj.length).map fun m => ((tg m).map fun t => r.getD t 0 + 1).foldl max 0
+  (List.range proj.length).foldl (fun r _ => step r) (List.replicate proj.length 0)
+
 def handle (args : List String) : String :=
   match args with
   | "build" :: rest =>
@@ -154,6 +167,24 @@ def handle (args : List String) : String :=
         ++ " names=" ++ b (namesOk proj) ++ " unique=" ++ b (namesUnique proj) ++ " basesne=" ++ b (basesNonempty proj)
         ++ " classimports=" ++ b (classImportsUnique proj)
     | none => "bad-request"
+  | "rsound" :: rest =>
+    -- `imports rsound <project> O|<rank> ? <order> <order> …`: the hypothesis `WFr` of the re-export statement and the
+    -- bounded search for a counterexample (every dotted name of ≤ 3 components over the project's identifiers, every
+    -- scope, every given processing order × the first order and its reverse as Python import orders)
+    let (ptoks, otoks) := splitArgs rest
+    match parseProject (ptoks.length + 1) ptoks [] [], otoks.mapM Proto.natList with
+    | some (proj, rank0), some ords =>
+      let rank := if rank0.isEmpty then autoRank proj else rank0
+      let b (x : Bool) : String := if x then "1" else "0"
+      let pyords := match ords with | o :: _ => [o, o.reverse] | [] => []
+      let r := soundViolations proj ords pyords 2
+      "ok wfr=" ++ b (WFr proj rank) ++ " shape=" ++ b (reexportShape proj) ++ " reqs=" ++ toString (reexportReqs proj).length
+        ++ " checked=" ++ toString r.2 ++ " viol=" ++ toString r.1.length
+        ++ (match r.1 with
+            | v :: _ => " first=" ++ toString v.1 ++ ";" ++ showPath v.2.1 ++ ";" ++ showPath v.2.2.1 ++ ";"
+                ++ showIdent (some v.2.2.2.1) ++ ";" ++ showIdent (some v.2.2.2.2)
+            | [] => "")
+    | _, _ => "bad-request"
   | _ => "bad-op"
 
 end Imports
